@@ -975,7 +975,7 @@ func (di *dynInterp) call(f *ssa.Function, c *ssa.Call, get func(ssa.Value) aval
 	}
 	if di.arith && q == "swag.IsFloat64AJSONInteger" && args[0].k == avConst {
 		f, _ := constant.Float64Val(constant.ToFloat(args[0].c))
-		return cBool(f == float64(int64(f)))
+		return cBool(swagIsFloat64AJSONInteger(f))
 	}
 	return top
 }
@@ -1527,4 +1527,31 @@ func wrapInt(c constant.Value, t types.Type) constant.Value {
 		r = constant.BinaryOp(r, token.SUB, mod)
 	}
 	return r
+}
+
+// swagIsFloat64AJSONInteger is a faithful copy of github.com/go-openapi/swag@v0.23.1 convert.go
+// IsFloat64AJSONInteger (a dependency is modelled, not idealised: it is NOT "f is integral" — beyond exact
+// integers it accepts anything within a relative 1e-9 of float64(uint64(f)), and nothing outside ±(2^53−1)).
+func swagIsFloat64AJSONInteger(f float64) bool {
+	const (
+		maxJSONFloat         = float64(1<<53 - 1)
+		minJSONFloat         = -float64(1<<53 - 1)
+		epsilon      float64 = 1e-9
+	)
+	if math.IsNaN(f) || math.IsInf(f, 0) || f < minJSONFloat || f > maxJSONFloat {
+		return false
+	}
+	fa := math.Abs(f)
+	g := float64(uint64(f))
+	ga := math.Abs(g)
+	diff := math.Abs(f - g)
+	switch {
+	case f == g:
+		return true
+	case f == float64(int64(f)) || f == float64(uint64(f)):
+		return true
+	case f == 0 || g == 0 || diff < math.SmallestNonzeroFloat64:
+		return diff < (epsilon * math.SmallestNonzeroFloat64)
+	}
+	return diff/math.Min(fa+ga, math.MaxFloat64) < epsilon
 }
